@@ -460,9 +460,9 @@ func RunC11(seed int64, tier, out string) {
 	hx.Seed(seed)
 	g := &cv.Gen{R: rand.New(rand.NewSource(hx.Rng.Int63()))}
 	res := hx.NewResult("C11", seed, tier)
-	histories, maxSteps, perFile := 48, 110, 3
+	histories, maxSteps, perFile := 32, 90, 2
 	if tier != "quick" {
-		histories, maxSteps, perFile = 800, 400, 4
+		histories, maxSteps, perFile = 400, 250, 4
 	}
 	w := &fileWriter{dir: out, fn: "mismatches11"}
 	defer os.RemoveAll(filepath.Join(out, "tmp_ldb"))
